@@ -37,7 +37,14 @@ enum Roots {
     Random,
     /// all large primes hit the same 256-wide bucket: forces the counted overflow
     Crowd,
+    /// 40 of the largest primes of one bucket class are planted, two per position, in one bucket of
+    /// block 1 (an odd block): the bucket overflows into the kept overflow slots WITHOUT exceeding
+    /// them, so no loss is tolerated and the planted primes must all be listed
+    Crowd2,
 }
+
+/// position (relative to the interval start) of the bucket used by Roots::Crowd2
+const CROWD2_POS: u32 = BLOCK_SIZE as u32 + 256 * 40;
 
 fn make_roots(rng: &mut StdRng, fb: &FBase, kind: Roots) -> (Vec<u32>, Vec<u32>) {
     let mut r1 = vec![];
@@ -61,6 +68,7 @@ fn make_roots(rng: &mut StdRng, fb: &FBase, kind: Roots) -> (Vec<u32>, Vec<u32>)
                 (a, if big { (a + 1 + rng.gen_range(0..p - 1)) % p } else { a })
             }
             Roots::Random => (rng.gen_range(0..p), rng.gen_range(0..p)),
+            Roots::Crowd2 => (rng.gen_range(0..p), rng.gen_range(0..p)),
             Roots::Crowd => {
                 if big {
                     let a = 1000 + rng.gen_range(0..100);
@@ -74,6 +82,25 @@ fn make_roots(rng: &mut StdRng, fb: &FBase, kind: Roots) -> (Vec<u32>, Vec<u32>)
         r1.push(a);
         r2.push(b);
     }
+    if kind == Roots::Crowd2 {
+        // the last (largest-index) 40 primes of the bucket class that holds the most primes above the planted position
+        let mut by_class: std::collections::BTreeMap<u32, Vec<usize>> = Default::default();
+        for i in 0..fb.len() {
+            let p = fb.p(i);
+            if p >= 1 << 15 && p < 1 << 18 && p > CROWD2_POS + 64 {
+                by_class.entry(32 - p.leading_zeros()).or_default().push(i);
+            }
+        }
+        if let Some(idxs) = by_class.values().max_by_key(|v| v.len()) {
+            let take = idxs.len().min(40);
+            for (j, &i) in idxs[idxs.len() - take..].iter().enumerate() {
+                r1[i] = CROWD2_POS + (j as u32) / 2;
+                if r2[i] / 256 == r1[i] / 256 || r2[i] == r1[i] {
+                    r2[i] = (r1[i] + 1000) % fb.p(i);
+                }
+            }
+        }
+    }
     (r1, r2)
 }
 
@@ -85,11 +112,22 @@ struct Plan {
     thr: u8,
     root: Option<u32>,
     max_rep: usize,
+    /// always log the reports of this block whose position lies in [lo, hi)
+    focus: Option<(usize, u32, u32)>,
+    /// also log up to max_rep reports per block at which a prime >= 2^18 divides on its second or later
+    /// hit in the interval (chosen from the root tables, i.e. from the inputs, not from what the sieve lists)
+    vlarge_focus: bool,
 }
 
 /// sieves all blocks of `s`, logging a sample of the reports of each block
 fn sieve_all(out: &mut Out, rng: &mut StdRng, case: &str, s: &mut Sieve, r1: &[u32], r2: &[u32], plan: &Plan) -> bool {
     let nb = s.nblocks;
+    // primes >= 2^18 with their roots (for the vlarge focus)
+    let vl: Vec<(u64, u64, u64)> = if plan.vlarge_focus {
+        (0..s.fbase.len()).filter(|&i| s.fbase.p(i) >= 1 << 18).map(|i| (s.fbase.p(i) as u64, r1[i] as u64, r2[i] as u64)).collect()
+    } else {
+        vec![]
+    };
     for _ in 0..nb {
         let b = s.blk_no;
         let r = guard(|| {
@@ -114,6 +152,29 @@ fn sieve_all(out: &mut Out, rng: &mut StdRng, case: &str, s: &mut Sieve, r1: &[u
             pick.push(nrep - 1);
             for _ in 0..plan.max_rep {
                 pick.push(rng.gen_range(0..nrep));
+            }
+            if let Some((fb_, lo, hi)) = plan.focus {
+                if fb_ == b {
+                    for (j, &i) in idxs.iter().enumerate() {
+                        if (i as u32) >= lo && (i as u32) < hi {
+                            pick.push(j);
+                        }
+                    }
+                }
+            }
+            if plan.vlarge_focus {
+                let mut cnt = 0;
+                for (j, &i) in idxs.iter().enumerate() {
+                    let pos = (b * BLOCK_SIZE) as u64 + i as u64;
+                    let hit = vl.iter().any(|&(p, a, c)| pos >= p && (pos % p == a || pos % p == c));
+                    if hit {
+                        pick.push(j);
+                        cnt += 1;
+                        if cnt >= plan.max_rep {
+                            break;
+                        }
+                    }
+                }
             }
             pick.sort();
             pick.dedup();
@@ -163,6 +224,7 @@ fn kind_name(k: Roots) -> &'static str {
         Roots::Single => "single",
         Roots::Random => "random",
         Roots::Crowd => "crowd",
+        Roots::Crowd2 => "crowd2",
     }
 }
 
@@ -188,10 +250,11 @@ pub fn run(args: &Args) -> i32 {
             case
         };
         // 1. fresh sieves: every root shape x interval lengths x thresholds
-        let shapes = [Roots::Real, Roots::Zero, Roots::Top, Roots::Single, Roots::Random, Roots::Crowd];
+        let shapes = [Roots::Real, Roots::Zero, Roots::Top, Roots::Single, Roots::Random, Roots::Crowd, Roots::Crowd2];
         for (ki, &kind) in shapes.iter().enumerate() {
             let nbs: Vec<usize> = match (thorough, kind) {
                 (_, Roots::Real) => vec![1, 2, 3, 8],
+                (_, Roots::Crowd2) => vec![2, 4],
                 (true, _) => vec![1, 3],
                 (false, _) => vec![[1, 2, 3][(ki + fi) % 3]],
             };
@@ -201,9 +264,9 @@ pub fn run(args: &Args) -> i32 {
                 let offset = if rng.gen_bool(0.5) { -((nblocks * BLOCK_SIZE) as i64) / 2 } else { 0 };
                 if let Some(mut s) = new_sieve(&mut out, &case, &fb, &r1, &r2, nblocks, offset, None, kind_name(kind)) {
                     // low threshold: many reports; with and without the root compensation
-                    let thr = [24u8, 40, 60][rng.gen_range(0..3)];
-                    let root = if rng.gen_bool(0.4) { Some(rng.gen_range(0..(nblocks * BLOCK_SIZE / 2) as u32)) } else { None };
-                    sieve_all(&mut out, &mut rng, &case, &mut s, &r1, &r2, &Plan { thr, root, max_rep });
+                    let thr = if kind == Roots::Crowd2 { 24u8 } else { [24u8, 40, 60][rng.gen_range(0..3)] };
+                    let root = if kind != Roots::Crowd2 && rng.gen_bool(0.4) { Some(rng.gen_range(0..(nblocks * BLOCK_SIZE / 2) as u32)) } else { None };
+                    sieve_all(&mut out, &mut rng, &case, &mut s, &r1, &r2, &Plan { thr, root, max_rep, focus: if kind == Roots::Crowd2 { Some((1, CROWD2_POS - BLOCK_SIZE as u32, CROWD2_POS - BLOCK_SIZE as u32 + 20)) } else { None }, vlarge_focus: false });
                 }
             }
         }
@@ -216,7 +279,7 @@ pub fn run(args: &Args) -> i32 {
                 let offset = -((nblocks * BLOCK_SIZE) as i64) / 2;
                 match new_sieve(&mut out, &case, &fb, &r1, &r2, nblocks, offset, rec.take(), kind_name(kind)) {
                     Some(mut s) => {
-                        sieve_all(&mut out, &mut rng, &case, &mut s, &r1, &r2, &Plan { thr: 36, root: None, max_rep });
+                        sieve_all(&mut out, &mut rng, &case, &mut s, &r1, &r2, &Plan { thr: 36, root: None, max_rep, focus: None, vlarge_focus: false });
                         rec = Some(s.recycle());
                     }
                     None => break,
@@ -248,10 +311,30 @@ pub fn run(args: &Args) -> i32 {
                             }
                         }
                     }
-                    if !sieve_all(&mut out, &mut rng, &case, &mut s, &r1, &r2, &Plan { thr: 40, root: None, max_rep }) {
+                    if !sieve_all(&mut out, &mut rng, &case, &mut s, &r1, &r2, &Plan { thr: 40, root: None, max_rep, focus: None, vlarge_focus: false }) {
                         break;
                     }
                 }
+            }
+        }
+    }
+    // 4. very large primes (>= 2^18) in an interval longer than 8 blocks: such a prime hits the interval
+    //    more than once per root; the reports checked are chosen (from the root tables) among those where a
+    //    very large prime divides on its second or later hit.  No loss is tolerated in that class.
+    {
+        let n = rand_bits(&mut rng, 160) | Uint::ONE;
+        let fb = FBase::new(Int::cast_from(n), 12000);
+        for (ci, nblocks) in [(1usize, 12usize), (2, 16)] {
+            if !thorough && ci == 2 {
+                continue;
+            }
+            let case = format!("fb12000/{}/vlarge", ci);
+            out.ev(json!({"op": "fb", "case": case, "primes": fb.primes, "size": 12000, "bound": fb.bound(), "check": "sample"}));
+            let (r1, r2) = make_roots(&mut rng, &fb, if ci == 1 { Roots::Real } else { Roots::Random });
+            let offset = -((nblocks * BLOCK_SIZE) as i64) / 2;
+            if let Some(mut s) = new_sieve(&mut out, &case, &fb, &r1, &r2, nblocks, offset, None, "real") {
+                sieve_all(&mut out, &mut rng, &case, &mut s, &r1, &r2,
+                          &Plan { thr: 24, root: None, max_rep: 6, focus: None, vlarge_focus: true });
             }
         }
     }
